@@ -66,6 +66,55 @@ pub fn schedules(_seed: u64) -> usize {
             found += 1;
         }
     }
+    // a write that got Pending is abandoned (its future lost a select!, or hit a timeout) and the next write carries other bytes
+    // of the same length: what reaches the wire is the continuous CFB-8 stream of the bytes reported as written, nothing else
+    {
+        struct PendFirst { out: std::sync::Arc<std::sync::Mutex<Vec<u8>>>, pending_left: usize }
+        impl AsyncWrite for PendFirst {
+            fn poll_write(mut self: Pin<&mut Self>, _: &mut Context<'_>, buf: &[u8]) -> Poll<std::io::Result<usize>> {
+                if self.pending_left > 0 { self.pending_left -= 1; return Poll::Pending; }
+                self.out.lock().unwrap().extend_from_slice(buf);
+                Poll::Ready(Ok(buf.len()))
+            }
+            fn poll_flush(self: Pin<&mut Self>, _: &mut Context<'_>) -> Poll<std::io::Result<()>> { Poll::Ready(Ok(())) }
+            fn poll_shutdown(self: Pin<&mut Self>, _: &mut Context<'_>) -> Poll<std::io::Result<()>> { Poll::Ready(Ok(())) }
+        }
+        impl AsyncRead for PendFirst {
+            fn poll_read(self: Pin<&mut Self>, _: &mut Context<'_>, _: &mut ReadBuf<'_>) -> Poll<std::io::Result<()>> { Poll::Ready(Ok(())) }
+        }
+        for (la, lb) in [(10usize, 10usize), (10, 7), (1, 1), (40, 40)] {
+            let a: Vec<u8> = (0..la).map(|i| 0xA0 ^ i as u8).collect();
+            let b: Vec<u8> = (0..lb).map(|i| 0x5B ^ (3 * i) as u8).collect();
+            let c: Vec<u8> = plain[..33].to_vec();
+            let out = std::sync::Arc::new(std::sync::Mutex::new(vec![]));
+            let abandoned = rt.block_on(async {
+                let (e, d) = create_ciphers(secret).unwrap();
+                let mut s = CipherStream::new(PendFirst { out: out.clone(), pending_left: 1 }, Some(e), Some(d));
+                let waker = std::task::Waker::noop();
+                let mut cx = Context::from_waker(waker);
+                let first = Pin::new(&mut s).poll_write(&mut cx, &a);
+                let abandoned = first.is_pending();
+                if let Poll::Ready(Ok(n)) = first { if n < a.len() { s.write_all(&a[n..]).await.unwrap(); } }
+                s.write_all(&b).await.unwrap();
+                s.write_all(&c).await.unwrap();
+                abandoned
+            });
+            let got = out.lock().unwrap().clone();
+            let expect_plain: Vec<u8> = if abandoned { [b.clone(), c.clone()].concat() } else { [a.clone(), b.clone(), c.clone()].concat() };
+            let out2 = std::sync::Arc::new(std::sync::Mutex::new(vec![]));
+            rt.block_on(async {
+                let (e, d) = create_ciphers(secret).unwrap();
+                let mut s = CipherStream::new(Trickle { out: out2.clone(), max: usize::MAX, pend: 0, calls: 0 }, Some(e), Some(d));
+                s.write_all(&expect_plain).await.unwrap();
+            });
+            let want = out2.lock().unwrap().clone();
+            if got != want {
+                let first = got.iter().zip(want.iter()).position(|(x, y)| x != y);
+                println!("REPRODUCED cipher a {la}-byte write that got Pending was abandoned, then {lb} other bytes and 33 more were written: the wire differs from the CFB8 stream of the bytes reported as written at byte {first:?} ({} bytes on the wire, {} expected)", got.len(), want.len());
+                found += 1;
+            }
+        }
+    }
     // read side: ciphertext delivered in small reads must decrypt to the plaintext
     for chunk in [1usize, 2, 5, 64] {
         let got = rt.block_on(async {
